@@ -52,6 +52,8 @@ CLASSES = ["Solver", "SolverCacheless", "SolverStrings"]
 # rule-directed stream: one history per cache arm / per repaired defect (they are also the witnesses recorded in
 # known_findings.json as "fixed:"), each run on every class
 A = lambda c: {"s": 0, "op": "add", "cs": [c]}  # noqa: E731
+Q_ALL = [{"s": 0, "op": "satisfiable", "extra": []}, {"s": 0, "op": "eval", "e": "x", "n": 20, "extra": []},
+         {"s": 0, "op": "min", "e": "x", "signed": True, "extra": []}, {"s": 0, "op": "max", "e": "x", "signed": False, "extra": []}]
 RULES = {
     "batch-after-exhausted-evals": [A("ULT(x, 3)"), A("ULT(z, 2)"), {"s": 0, "op": "eval", "e": "x", "n": 5, "extra": []},
                                     {"s": 0, "op": "eval", "e": "z", "n": 5, "extra": []},
@@ -116,6 +118,16 @@ RULES = {
                               {"s": 0, "op": "max", "e": "x", "signed": True, "extra": []}, {"s": 0, "op": "downsize"},
                               {"s": 0, "op": "solution", "e": "x", "v": 9, "extra": []}, {"s": 0, "op": "min", "e": "x", "signed": False, "extra": []},
                               {"s": 0, "op": "max", "e": "x", "signed": True, "extra": []}, {"s": 0, "op": "batch_eval", "es": ["x"], "n": 20, "extra": []}],
+    # the FIRST and only constraint is a bound that leaves no room - in the signed reading (x <s INT_MIN, x >s INT_MAX) and in the
+    # unsigned one (x <u 0, x >u all-ones) -, or one that leaves all of it; satisfiable() / values / extrema are asked at once
+    "single-bound-below-int-min": [A("SLT(x, 8)")] + Q_ALL,
+    "single-bound-above-int-max": [A("SGT(x, 7)"), Q_ALL[1], Q_ALL[0]] + Q_ALL[2:],
+    "single-bound-below-zero": [A("ULT(x, 0)")] + Q_ALL,
+    "single-bound-above-all-ones": [A("UGT(y, 7)"), Q_ALL[0], {"s": 0, "op": "eval", "e": "y", "n": 20, "extra": []}],
+    "single-bound-whole-range": [A("SGE(x, 8)")] + Q_ALL[:2] + [A("SLE(x, 7)"), Q_ALL[0], A("SLT(x, 8)")] + Q_ALL,
+    "single-bound-on-branch": [{"s": 0, "op": "branch"}, {"s": 1, "op": "add", "cs": ["SGT(y, 3)"]}, {"s": 1, "op": "satisfiable", "extra": []},
+                               {"s": 1, "op": "eval", "e": "y", "n": 20, "extra": []}, {"s": 0, "op": "satisfiable", "extra": []},
+                               A("SLT(BVV(7, 4), x)"), Q_ALL[0], Q_ALL[1]],
 }
 
 WEIGHTS = {"add": 22, "satisfiable": 8, "eval": 14, "batch_eval": 6, "min": 11, "max": 11, "solution": 8, "is_true": 2, "is_false": 2,
@@ -151,6 +163,12 @@ def directed_jobs(ctx, mult=1):
         for i in range(k * mult):
             jobs.append({"cls": cls, "cfg": {"track": i % 5 == 0, "reuse": i % 3 == 0}, "len": ctx.pick(5, 20),
                          "gen": {"shape": "exhaust-downsize", "weights": WEIGHTS, "after_downsize": 0.6}})
+    # the first and only constraint is a bound of a bare variable against a boundary constant (any of the eight orderings), asked at
+    # once: satisfiable(), all values, extrema; random tail
+    for cls, k in {"Solver": ctx.pick(16, 120), "SolverCacheless": ctx.pick(8, 60), "SolverStrings": ctx.pick(8, 60)}.items():
+        for i in range(k * mult):
+            jobs.append({"cls": cls, "cfg": {"track": i % 5 == 0, "reuse": i % 3 == 0}, "len": ctx.pick(3, 12),
+                         "gen": {"shape": "single-bound", "weights": WEIGHTS}})
     return jobs
 
 
@@ -175,6 +193,19 @@ def exhaustive_jobs(ctx):
     return jobs
 
 
+def single_bound_jobs(ctx):
+    """every ordering x EVERY constant as the only constraint (x: 4 bits, y: 3 bits; the boundary constants also written the other
+    way round), then satisfiable() / all values / extrema at once - on every class"""
+    from lib import solverlib as L
+    jobs = []
+    for i, (edge, h) in enumerate(L.single_bound_histories()):
+        for j, cls in enumerate(CLASSES):
+            # quick: the constants 0 / INT_MAX / INT_MIN / all-ones on every class, the others on one class in turn
+            if edge or ctx.thorough() or (i + j) % 3 == 0:
+                jobs.append({"cls": cls, "cfg": {"track": (i + j) % 7 == 0, "reuse": (i + j) % 3 == 0}, "hist": h})
+    return jobs
+
+
 def run(ctx):
     ctx._chunk_base = 0
     ctx.cov["trusted_base"] += [
@@ -192,7 +223,9 @@ def run(ctx):
                        "thorough, up to 4 branches; half of the downsize() calls as a burst `everything about e, downsize(), one small question, "
                        "everything about e`), directed openings (range constraints, everything asked, downsize(), one small question, everything "
                        "again; random tail), solver lifetimes (oracle only: unrelated solvers, branches made, asked at once and dropped, "
-                       "reuse_z3_solver mostly on), bounded-exhaustive (all histories of length <=2 quick / <=3 thorough over a 28-call menu); "
+                       "reuse_z3_solver mostly on), bounded-exhaustive (all histories of length <=2 quick / <=3 thorough over a 28-call menu); single bounds (the first and only "
+                       "constraint is `v OP c`, every ordering x every constant, then satisfiable() / values / extrema at once: exhaustive on "
+                       "every class, and as a directed opening with boundary constants and a random tail); "
                        "non-trivial = history with >= 3 calls; distinct = digest of (class, config, history)")
     # 1. translate
     tie_ok = True
@@ -211,8 +244,8 @@ def run(ctx):
     workers = ctx.pick(4, 6)
     all_fails, mism = [], []
     for stream, jobs in (("rule-directed", rule_jobs()), ("random", random_jobs(ctx)), ("directed-openings", directed_jobs(ctx)),
-                         ("bounded-exhaustive", exhaustive_jobs(ctx))):
-        m = SC.run_jobs(ctx, jobs, workers, corr=True, chunk_size=ctx.pick(12, 20) if stream != "bounded-exhaustive" else 200)
+                         ("bounded-exhaustive", exhaustive_jobs(ctx)), ("single-bound-exhaustive", single_bound_jobs(ctx))):
+        m = SC.run_jobs(ctx, jobs, workers, corr=True, chunk_size=ctx.pick(12, 20) if "exhaustive" not in stream else 200)
         SC.merge_cov(ctx, m, stream)
         all_fails += m["fails"]
         mism += m["mismatch"]
